@@ -210,7 +210,18 @@ func init() {
 			"a one-for-all Stop decision of the system (root) strategy is not generated: it also terminates the harness's observer actor",
 		},
 		Units: []Unit{
-			{Name: "life", Pkg: "c05", Run: "^TestC05Lifecycle$", QuickChecks: 6000, ThoroughChecks: 60000, ThoroughShards: 16, CaseFile: true},
+			{Name: "life", Pkg: "c05", Run: "^TestC05Lifecycle$", QuickChecks: 6000, ThoroughChecks: 60000, ThoroughShards: 16, CaseFile: true, CrashOracle: "no-crash"},
+		},
+	}
+
+	registry["C03"] = &Check{
+		Rule: "world scenarios: trees of 1-5 actors with drawn supervision, providers, failing OnLaunch / restart hooks; scripts of 1-10 operations (tell with nested programs: tell, panic, Failed, kill, stash/unstash(n), spawn) where every tell draws its target (incl. paths that never existed) and the provenance of the reference (ref returned by ActorOf, Clone, ParseRef, CreateRef, FindActor); sequential or racing (1 in 4); 1 in 10 cases runs the whole script against an already stopped system. Oracle (conservation, evaluated at quiescence after all timers expired): every user message id handed to Tell ends in exactly one of {handled once, in the stash, one dead letter}; after Stop: no handler runs and the case becomes quiescent (bounded work). Non-trivial = a send whose target was not plainly running at send time (never existed / terminated / paused / zombie) or whose reference was not the cached one. Distinct = hash of the scenario.",
+		Assumptions: []string{
+			"the documented zombie exception: a message sent to an actor that became a zombie in the run is exempt from the lost clause",
+			"target state classes are derived from the behaviour trace and event stream up to the send; in racing mode the interleaving is the Go scheduler's",
+		},
+		Units: []Unit{
+			{Name: "cons", Pkg: "c03", Run: "^TestC03Conservation$", QuickChecks: 5000, ThoroughChecks: 50000, ThoroughShards: 16, CaseFile: true, CrashOracle: "no-crash"},
 		},
 	}
 }
